@@ -355,3 +355,60 @@ class InsertionIndex:
         return (0 <= result <= n
                 and forall_range(0, result, lambda i: g_at(routing_table, i) < generality)
                 and forall_range(result, n, lambda i: g_at(routing_table, i) >= generality))
+
+
+# ---- ordered covering: the merge computation of _Merge.__new__, on the real statements (fragments) ---------------------------
+def folded(any_ones, all_ones, all_selected, key, mask):
+    """member key/mask has been folded into the accumulators"""
+    return (key & ~any_ones) == 0 and (all_ones & ~key) == 0 and (all_selected & ~mask) == 0
+
+
+@contract("rig/routing_table/ordered_covering.py::_Merge.__new__@forbody:0")
+class MergeFoldStep:
+    """ONE iteration of `for i in entries:`: the entry is folded in and every member folded before stays folded"""
+    properties = ("C04",)
+    bv = 40
+    params = dict(i=TInt(0, None), routing_table=TABLE, sources=TSmallSet([None] + ROUTES),
+                  any_ones=KEY, all_ones=KEY, all_selected=KEY, g_key=KEY, g_mask=KEY)
+    fragment_result = ("any_ones", "all_ones", "all_selected", "sources")
+    options = {"int_class": "rig/routing_table/entries.py::Routes"}
+
+    def native(i):
+        raise __import__("pyvc.replay", fromlist=["OutsideHarness"]).OutsideHarness()
+
+    def requires(i, routing_table, any_ones, all_ones, all_selected, g_key, g_mask):
+        return i < seq_len(routing_table) and folded(any_ones, all_ones, all_selected, g_key, g_mask)
+
+    def ensures_the_entry_is_folded_in(i, routing_table, result):
+        e = select(routing_table, i)
+        return folded(result[0], result[1], result[2], e.key, e.mask)
+
+    def ensures_earlier_members_stay_folded(result, g_key, g_mask):
+        return folded(result[0], result[1], result[2], g_key, g_mask)
+
+    def ensures_sources_are_the_union_of_the_members_sources(i, routing_table, sources, result):
+        e = select(routing_table, i)
+        return all((r in result[3]) == (r in sources or r in e.sources) for r in [None] + ROUTES)
+
+
+@contract("rig/routing_table/ordered_covering.py::_Merge.__new__@seq:5:4")
+class MergeKeyMask:
+    """the four statements after the loop (any_zeros, new_xs, mask, key): the merged entry matches every key a folded member
+    matches, and its key has no bit outside its mask"""
+    properties = ("C04",)
+    bv = 40
+    params = dict(any_ones=KEY, all_ones=KEY, all_selected=KEY, g_key=KEY, g_mask=KEY)
+    fragment_result = ("key", "mask")
+    fragment_head = "any_zeros = ~all_ones"
+
+    def native(any_ones):
+        raise __import__("pyvc.replay", fromlist=["OutsideHarness"]).OutsideHarness()
+
+    def requires(any_ones, all_ones, all_selected, g_key, g_mask):
+        return well_formed(g_key, g_mask) and folded(any_ones, all_ones, all_selected, g_key, g_mask)
+
+    def ensures_the_merged_entry_matches_what_a_member_matches(result, g_key, g_mask):
+        return forall_keys(lambda k: implies(matches(k, g_key, g_mask), matches(k, result[0], result[1])))
+
+    def ensures_merged_entry_is_well_formed(result):
+        return well_formed(result[0], result[1])
